@@ -145,15 +145,30 @@ def execute(case):
 
             pi = op.get("p", 0) % 2
             p = projects[pi]
-            data = p.read()
+            try:
+                data = p.read()
+            except Exception as e:
+                if not env.raised_in_rv(e):
+                    raise
+                violations.append(_v("save_raises", exc=type(e).__name__, operands="n/a", request="reload", detail={"op": i, "msg": str(e)[:120]}))
+                continue
             linked = {m.index for m in p.modules if m is not None and (any(x >= 0 for x in m.in_links) or any(x >= 0 for x in m.out_links))}
             blank = {j for j in range(1, len(p.modules)) if j not in linked and (op.get("gaps", 0) >> (j % 30)) & 1}
             if blank:
                 data = c14.blank_sections(data, blank)
                 probes["reload_with_gaps"] = probes.get("reload_with_gaps", 0) + 1
             ctx = Ctx(())
-            with active(ctx):
-                projects[pi] = read_sunvox_file(ctx.new_stream(data, "arg"))
+            try:
+                with active(ctx):
+                    projects[pi] = read_sunvox_file(ctx.new_stream(data, "arg"))
+            except (KeyboardInterrupt, HarnessTimeout):
+                raise
+            except Exception as e:
+                if not env.raised_in_rv(e):
+                    raise
+                violations.append(_v("reload_raises", exc=type(e).__name__, operands="n/a", request="reload", detail={"op": i, "msg": str(e)[:120]}))
+                log.append((i, "reload", pi, "error"))
+                continue
             env.LOG.take()
             check_project(projects[pi], models[pi], violations, i, "AB"[pi], {"operands": "n/a", "request": "reload"})
             log.append((i, "reload", pi, len(blank)))
